@@ -15,14 +15,16 @@ open PolyVerif PolyVerif.LineText PolyVerif.Gff PolyVerif.Spec.GffLayout
 
 /-! ### C14, first clause: write then read -/
 
-/-- **Parse (Build x) = expected x** with ANY line-break rule in Build's FASTA loop, for every record
-that satisfies `wfBuild` — any sequence length, any number of features and attributes, the
-attribute map in any iteration order.  (The correspondence check compares the real Build's text
-with the model's up to the position of the newlines inside the sequence; this theorem is what
-makes that comparison sufficient.) -/
-theorem parse_buildWith (brk : Nat → Bool) (x : Gff) (h : wfBuild x = true) :
-    parse (buildWith brk x) = .ok (expected x) := by
-  simp only [wfBuild, Bool.and_eq_true, List.all_eq_true] at h
+/-- **The exact result of Parse ∘ Build over the quantifier AS WORDED** (`wfBuildQ`: a seqid may begin
+with `#`), with ANY line-break rule in Build's FASTA loop: `Parse (Build x) = expected (dropHash x)` —
+every feature whose written seqid begins with `#` is lost (known finding C14-hash-seqid), and
+everything else — region, sequence, every other feature in order — comes back as `expected` says.
+Any sequence length, any number of features and attributes, the attribute map in any iteration
+order.  (The correspondence check compares the real Build's text with the model's up to the
+position of the newlines inside the sequence; this theorem is what makes that comparison sufficient.) -/
+theorem parse_buildWith_hash (brk : Nat → Bool) (x : Gff) (h : wfBuildQ x = true) :
+    parse (buildWith brk x) = .ok (expected (dropHash x)) := by
+  simp only [wfBuildQ, Bool.and_eq_true, List.all_eq_true] at h
   obtain ⟨⟨⟨⟨⟨⟨h1, h2⟩, h3⟩, h4⟩, h5⟩, h6⟩, h7⟩ := h
   have htail := fasta_tail brk x.seq h6
   -- no line before the sequence holds LF or CR
@@ -51,7 +53,7 @@ theorem parse_buildWith (brk : Nat → Bool) (x : Gff) (h : wfBuild x = true) :
       simp only [List.append_assoc, List.cons_append, List.mem_append, List.mem_cons, not_or]
       exact ⟨sSeqRegion_free _ hc3, hsp, free_not_mem h1 hc3, hsp, regionStartText_free x _ hc3, hsp,
         regionEndText_free x _ hc3⟩
-    · exact (buildFeature_line (h7 f hf)).2.2 c hc
+    · exact (buildFeature_line (h7 f hf)).2 c hc
     · simp only [List.mem_cons, List.not_mem_nil, or_false] at hc
       rcases hc with rfl | rfl <;> decide
     · simp only [List.mem_cons, List.not_mem_nil, or_false] at hc
@@ -82,7 +84,8 @@ theorem parse_buildWith (brk : Nat → Bool) (x : Gff) (h : wfBuild x = true) :
       rcases List.mem_append.1 hl with hl | hl
       · exact hhead l hl '\r' (by simp)
       · exact htailcr l hl
-  have hmid : MidOk (x.features.map (buildFeature x.locusName) ++ [sClose]) (x.features.map (expectedFeature x.locusName)) := by
+  have hmid : MidOk (x.features.map (buildFeature x.locusName) ++ [sClose])
+      ((x.features.filter fun f => !hasPrefix sHash1 (effName x.locusName f)).map (expectedFeature x.locusName)) := by
     have := MidOk.append (midOk_features x.locusName x.features h7)
       (MidOk.skip (line := sClose) (by decide) (by decide))
     simpa using this
@@ -93,11 +96,36 @@ theorem parse_buildWith (brk : Nat → Bool) (x : Gff) (h : wfBuild x = true) :
   rw [atoi_regionStartText x h4, atoi_regionEndText x h5]
   rfl
 
+/-- `wfBuild` is `wfBuildQ` plus "no written seqid begins with `#`" -/
+theorem wfBuild_split (x : Gff) (h : wfBuild x = true) : wfBuildQ x = true ∧ dropHash x = x := by
+  simp only [wfBuild, wfBuildQ, Bool.and_eq_true, List.all_eq_true] at h ⊢
+  obtain ⟨h1, h7⟩ := h
+  refine ⟨⟨h1, fun f hf => (wfFeature_split (h7 f hf)).1⟩, ?_⟩
+  have : x.features.filter (fun f => !hasPrefix sHash1 (if f.name ≠ [] then f.name else x.locusName)) = x.features := by
+    apply List.filter_eq_self.2
+    intro f hf
+    have := (wfFeature_split (h7 f hf)).2
+    simp only [effName] at this
+    simp only [this, Bool.not_false]
+  simp only [dropHash, this]
+
+/-- **Parse (Build x) = expected x** with ANY line-break rule, for every record that satisfies `wfBuild`
+(no written seqid begins with `#`) -/
+theorem parse_buildWith (brk : Nat → Bool) (x : Gff) (h : wfBuild x = true) :
+    parse (buildWith brk x) = .ok (expected x) := by
+  have hs := wfBuild_split x h
+  have := parse_buildWith_hash brk x hs.1
+  rwa [hs.2] at this
+
 /-- **Parse (Build x) = expected x** for Build as it is: a line break after every 70th letter except
 at position `RegionEnd` — hence for every residue of the length modulo 70 and every position of
 `RegionEnd` relative to the line breaks. -/
 theorem parse_build (x : Gff) (h : wfBuild x = true) : parse (build x) = .ok (expected x) :=
   parse_buildWith (buildBreak x.regionEnd) x h
+
+/-- the exact result for Build as it is, over the quantifier as worded -/
+theorem parse_build_hash (x : Gff) (h : wfBuildQ x = true) : parse (build x) = .ok (expected (dropHash x)) :=
+  parse_buildWith_hash (buildBreak x.regionEnd) x h
 
 /-- a one-feature record whose seqid begins with `#` -/
 def hashSeqidRecord : Gff :=
@@ -141,7 +169,7 @@ theorem parse_build_preserves (x : Gff) (h : wfBuild x = true) (hs : allSet x = 
   apply List.forall₂_same.2
   intro f hf
   have hset := hfs f hf
-  have ha := (featureFacts (hwf f hf)).attrs
+  have ha := (featureFacts (wfFeature_split (hwf f hf)).1).attrs
   simp only [expectedFeature, hset.1.1, hset.1.2, hset.2, ne_eq, not_false_eq_true, if_true, true_and]
   exact canonAttrs_perm ha.nodup
 
